@@ -1,2 +1,2 @@
 SPECIFICATION MCSpec
-INVARIANTS MulUn8Lemma MulLemma UnormLemma DivLemma SqrtLemma Algebra Consistency RealSanity
+INVARIANTS MulUn8Lemma MulLemma UnormLemma DivLemma SqrtLemma Algebra Consistency EquivLemma RealSanity
